@@ -102,6 +102,14 @@ type loc struct {
 	p string
 }
 
+// joinNorm2 joins a view prefix and a view path; the root prefix "." maps a path to itself.
+func joinNorm2(prefix, n string) string {
+	if prefix == "." {
+		return n
+	}
+	return joinNorm(prefix, n)
+}
+
 func joinNorm(prefix, n string) string {
 	if n == "." {
 		return prefix
@@ -163,11 +171,14 @@ func (v *mapView) rb() storage.ReadBucket  { return v.r }
 func (v *mapView) wb() storage.WriteBucket { return v.w }
 func (v *mapView) roots() []*base          { return v.inner.roots() }
 func (v *mapView) target(n string) (*base, string) {
-	return v.inner.target(v.prefix + "/" + n)
+	return v.inner.target(joinNorm2(v.prefix, n))
 }
-func (v *mapView) sources(n string) []loc { return v.inner.sources(joinNorm(v.prefix, n)) }
+func (v *mapView) sources(n string) []loc { return v.inner.sources(joinNorm2(v.prefix, n)) }
 func (v *mapView) contents() *contents {
 	in := v.inner.contents()
+	if v.prefix == "." {
+		return in
+	}
 	out := newContents()
 	cut := func(src map[string]bool, dst map[string]bool) {
 		for k := range src {
@@ -350,9 +361,9 @@ type sim struct {
 
 // siblings whose names extend a directory's name with a character that sorts below '/'
 // ("a-b", "a.d", "a.txt" next to "a/") separate path-wise from string-wise prefix handling
-var universeDirs = []string{"a", "a/x", "b", "b/y", "c", "a-b", "a.d", "b/y.z"}
-var universeNames = []string{"one.proto", "two.proto", "three.txt", "four", "five.proto", "a.txt", "one.proto.bak", "x.y", "sp ace.txt", "two  spaces.proto", "ünï.proto", " lead", "trail "}
-var mapPrefixes = []string{"a", "a/x", "b", "zz"}
+var universeDirs = []string{"a", "a/x", "b", "b/y", "c", "a-b", "a.d", "b/y.z", ".cfg", ".a", "a/.x"}
+var universeNames = []string{"one.proto", "two.proto", "three.txt", "four", "five.proto", "a.txt", "one.proto.bak", "x.y", "sp ace.txt", "two  spaces.proto", "ünï.proto", " lead", "trail ", ".hidden", ".one.proto"}
+var mapPrefixes = []string{"a", "a/x", "b", "zz", ".", ".cfg"}
 
 func (m *sim) violate(oracle, site, format string, args ...any) {
 	msg := fmt.Sprintf(format, args...)
@@ -486,6 +497,12 @@ func (m *sim) buildViews() {
 				if w := inner.wb(); w != nil {
 					mv.w = storage.MapWriteBucket(w, storage.MapOnPrefix(pfx[:i]), storage.MapOnPrefix(pfx[i+1:]))
 				}
+			} else if m.tp.Draw("rootchain", 4) == 3 && pfx != "." {
+				// the same mapping with a root mapper in front
+				mv.r = storage.MapReadBucket(inner.rb(), storage.MapOnPrefix("."), storage.MapOnPrefix(pfx))
+				if w := inner.wb(); w != nil {
+					mv.w = storage.MapWriteBucket(w, storage.MapOnPrefix("."), storage.MapOnPrefix(pfx))
+				}
 			} else {
 				mv.r = storage.MapReadBucket(inner.rb(), storage.MapOnPrefix(pfx))
 				if w := inner.wb(); w != nil {
@@ -541,7 +558,7 @@ func (m *sim) buildViews() {
 func (m *sim) markAnchors() {
 	for _, v := range m.views {
 		mv, ok := v.(*mapView)
-		if !ok {
+		if !ok || mv.prefix == "." {
 			continue
 		}
 		for _, l := range mv.inner.sources(mv.prefix) {
